@@ -5,6 +5,8 @@ CONSTANTS KeyOrd <- KeyAB
           NPaths = 1
           Blocked = {}
           Allow = {"bad_value"}
+          GenFlush = {1, 2, 3, 4}
+          WarmReads = TRUE
           InitCfgs <- FewCfgs
           WriteCfgs <- BadWrite
           MaxBegin = 2
